@@ -342,7 +342,7 @@ func Verif_c24_format() {
 	n, nargs, alen := verifParam("n"), verifParam("nargs"), verifParam("alen")
 	format := verifString("format", n)
 	for i := 0; i < len(format); i++ {
-		verifAssume(verifInSet(format[i], "%sdcxuobi\\n05-+ a"))
+		verifAssume(verifInSet(format[i], "%sdcxuobi\\n058-+ a"))
 	}
 	args := []string{}
 	for k := 0; k < nargs; k++ {
